@@ -142,6 +142,9 @@ class Identifier:
         elif isinstance(value, (str, int, bool)):
             self.hash_list.append(str(value))
         elif isinstance(value, Iterable):
+            if isinstance(value, (set, frozenset)):
+                # iteration order of a set follows the hash seed of the process
+                value = sorted(value, key=str)
             for value in value:
                 self.add_value_to_hash_list(value)
 
